@@ -128,6 +128,14 @@ class PathRules:
                 cb = site.body
                 gs = self.guards(cb, site.bb)
                 ok = self.g_exists(gs, lambda t: self.is_arg(t, 1), False)
+                if not ok and name == "copy_dir":
+                    # copy_dir has no fast path: its first mutation is destination.create_dir(), which itself refuses an
+                    # occupied destination (C01); everything else only runs after that call succeeded
+                    trs = get_tracer(self.facts, cb)
+                    is_first = sname(site.path) == "create_dir" and site.args and self.is_arg(trs.operand(site.args[0]), 1)
+                    after = any(g[0] == "variant" and g[2] == "ok" and peel(g[1])[0] == "call" and sname(peel(g[1])[1]) == "create_dir" and
+                                peel(g[1])[2] and self.is_arg(peel(g[1])[2][0], 1) for g in gs)
+                    ok = is_first or after
                 n += 1
                 rep.ob(rule, b.id, "%s: destination absent before %s" % (name, site.short), ok,
                        "dominated by !destination.exists()" if ok else
@@ -146,6 +154,9 @@ class PathRules:
                             gs = self.guards(cb, blk.idx)
                             if self.g_exists(gs, lambda t: self.is_arg(t, 1), True):
                                 has_refusal = True
+            if name == "copy_dir" and not has_refusal:
+                has_refusal = any(sname(s.path) == "create_dir" for cb in self.inter.code_bodies(b) for s in self.inter.sites(cb)
+                                  if s.args and self.is_arg(get_tracer(self.facts, cb).operand(s.args[0]), 1))
             n += 1
             rep.ob(rule, b.id, "%s: existing destination returns Err" % name, has_refusal,
                    "Err built on the destination.exists() edge" if has_refusal else "no Err return on the destination-exists edge", b.span)
@@ -420,7 +431,7 @@ class PathRules:
             for st in blk.stmts:
                 if st.kind == "assign" and st.rv.kind == "ref" and st.rv.mut and st.rv.place.is_local():
                     borrowed.add(st.rv.place.local)
-        inc_in_closure = any(cb.kind == "Closure" for cb, _, _ in incs)
+        inc_in_closure = any(cb.kind == "Closure" and not cb.coroutine for cb, _, _ in incs)
         if inc_in_closure:
             okret = bool(ret_locals & borrowed)
         else:
